@@ -22,7 +22,7 @@ EXTENDS Integers, Sequences, SequencesExt, FiniteSets, FiniteSetsExt, MavFrame, 
 CONSTANTS Defs,        \* reflected message definitions (for heartbeat / stream request decoding, checksums)
           HbDef, SrDef, TagDef   \* indices into Defs of HEARTBEAT, REQUEST_DATA_STREAM, NAMED_VALUE_INT
 
-OneAtATimeKinds == {"custom", "tcp_client", "udp_client", "serial"}
+OneAtATimeKinds == {"custom", "tcp_client", "udp_client", "udp_broadcast", "serial"}
 ClientKinds == {"tcp_client", "udp_client", "serial"}
 
 Init0 ==
@@ -80,7 +80,7 @@ OnEvOpen(m, ev) ==
       \* once Close is invoked close events may legitimately be missing (found by TLC on INode): not held against the closing window
       m2 == Check(m1, "C14.one_channel_at_a_time", m.closing \/ ~(m.kinds[ev.ep + 1] \in OneAtATimeKinds) \/ othersOpen = {}, ev)
   IN [m2 EXCEPT !.opened = @ \cup {k}, !.instPeer = Put(@, k, ev.peer), !.newInst = @ \cup {ev.ep},
-                !.openTimes = Append(@, [ep |-> ev.ep, inst |-> ev.inst, peer |-> ev.peer, t |-> ev.t])]
+                !.openTimes = Append(@, [ep |-> ev.ep, inst |-> ev.inst, peer |-> ev.peer, t |-> ev.t, seq |-> ev.seq])]
 
 PendOf(m, ev) == Get(m.pend, <<ev.ep, Get(m.instPeer, Key(ev), 0)>>, <<>>)
 
@@ -155,7 +155,10 @@ MayReachWire(m, c, w) ==
   IF IsTo(c) THEN Named(c) /\ c.tep = w[1] /\ TargetPeer(m, c) = w[2] /\ <<c.tep, c.tinst>> \notin c.closedAtInvoke
   ELSE IF IsExcept(c) THEN ~(Named(c) /\ c.tep = w[1] /\ TargetPeer(m, c) = w[2] /\ (Coexisting(m, w[1]) \/ OnlyInstance(m, c)))
   ELSE TRUE
-MayReach(m, c, ep) == MayReachWire(m, c, <<ep, 0>>)
+\* endpoint-level version (used for endpoints with a single channel instance): the wire of that instance
+PeerOfEp(m, ep) == LET K == {k \in m.opened : k[1] = ep}
+                   IN IF Cardinality(K) = 1 THEN Get(m.instPeer, CHOOSE k \in K : TRUE, 0) ELSE 0
+MayReach(m, c, ep) == MayReachWire(m, c, <<ep, PeerOfEp(m, ep)>>)
 
 Le4(p, o) == p[o + 1] + 256 * p[o + 2] + 65536 * p[o + 3]     \* 24 bits are enough for tags
 
@@ -341,10 +344,20 @@ FinalReconnect(m, ev) ==
                           j \in {x \in 1..Len(m.closeTimes) : m.closeTimes[x].ep = ep /\ ~m.closeTimes[x].closing}}
                       \cup {[t |-> real(ep)[j].t, seq |-> real(ep)[j].seq] :
                           j \in {x \in 1..Len(real(ep)) : real(ep)[x].mode \in {"fail", "refuse"}}}
+      \* a UDP "connection" attempt cannot be observed by a fake server: the re-opened channel (open event) stands for it
+      opensOf(ep) == SelectSeq(m.openTimes, LAMBDA o : o.ep = ep)
       retried(ep) == \A f \in failures(ep) :
-                        (m.tCloseInv >= 0 /\ m.tCloseInv - f.t < period + 500) \/ \E j \in 1..Len(real(ep)) : real(ep)[j].seq > f.seq
+                        \/ (m.tCloseInv >= 0 /\ m.tCloseInv - f.t < period + 500)
+                        \/ \E j \in 1..Len(real(ep)) : real(ep)[j].seq > f.seq
+                        \/ (m.kinds[ep + 1] = "udp_client" /\ \E j \in 1..Len(opensOf(ep)) : opensOf(ep)[j].seq > f.seq)
+      okReopen(ep) ==
+        LET O == opensOf(ep)
+        IN \A i \in 2..Len(O) :
+             LET closes == {m.closeTimes[j].t : j \in {x \in 1..Len(m.closeTimes) : m.closeTimes[x].ep = ep /\ m.closeTimes[x].seq < O[i].seq}}
+             IN closes = {} \/ (LET r == Max(closes) IN 10 * (O[i].t - r) >= 9 * period - 50 /\ O[i].t - r <= period + 3000)
       m0 == Check(m, "C14.reconnects_after_every_failure", \A ep \in Eps(m) : m.kinds[ep + 1] \notin ClientKinds \/ retried(ep), ev)
-  IN Check(Check(m0, "C14.reconnect_after_the_delay", \A ep \in Eps(m) : m.kinds[ep + 1] \notin ClientKinds \/ okGap(ep), ev),
+  IN Check(Check(m0, "C14.reconnect_after_the_delay",
+                 \A ep \in Eps(m) : m.kinds[ep + 1] \notin ClientKinds \/ (okGap(ep) /\ (m.kinds[ep + 1] # "udp_client" \/ okReopen(ep))), ev),
            "C14.first_connection_attempt_immediate", \A ep \in Eps(m) : m.kinds[ep + 1] \notin ClientKinds \/ firstOk(ep), ev)
 
 \* C14: idle expiry on timed connections (the scenario says which peers stay silent: conf.idle_silent / idle_active = <<ep, inst>>)
